@@ -279,6 +279,9 @@ fn run_tree(tree: &Tree, entry: &str, flags: &[String], lim: Limits) -> Outcome 
     let out = sc.join("out.ttf");
     let mut cmd = vcore::fontc_cmd(&vcore::fontc_bin(), None);
     cmd.current_dir(sc.path());
+    // 16 cases run side by side: a full-width rayon pool in each only adds contention (a stack
+    // overflow or a hang does not depend on the pool width; schedules are C02's subject)
+    cmd.env("RAYON_NUM_THREADS", "2");
     cmd.arg(src.join(entry)).arg("-o").arg(&out);
     cmd.args(flags);
     {
@@ -1607,7 +1610,7 @@ fn main() {
     }
     let t0 = Instant::now();
     let tier = args.tier;
-    let deadline_s: f64 = std::env::var("C15_DEADLINE_S").ok().and_then(|s| s.parse().ok()).unwrap_or(tier.pick(240.0, 3000.0));
+    let deadline_s: f64 = std::env::var("C15_DEADLINE_S").ok().and_then(|s| s.parse().ok()).unwrap_or(tier.pick(240.0, 3000.0) * vcore::budget_scale());
     let two_phase = std::env::var("C15_SINGLE_PHASE").is_err();
     let first = if two_phase { FIRST } else { FULL };
 
@@ -1899,6 +1902,7 @@ fn main() {
     rep.assume("a diagnostic that reports a caught panic ('A task panicked: …') with exit status 1 and no font is a reported failure, not a violation; such runs are counted in panics_reported_as_errors");
     rep.assume("exit status 2 (command line rejected by clap) with a diagnostic and no font is a clean failure");
     rep.assume("whether a given malformed input must be rejected or may be tolerated (repaired, ignored) is not fixed by the property; only crash, hang, silent failure, leftover font and a structurally unsound font are judged");
+    rep.assume("the product binary runs with RAYON_NUM_THREADS=2 (16 cases side by side); crash / hang / exit-status outcomes do not depend on the pool width");
     rep.finish();
 }
 
